@@ -9,7 +9,7 @@ ORACLE_RULE = ("C11: random stream x optional timeframe/fill x append schedule (
                "real CandleManager vs an independent left fold of the four formulas over the independently resampled raw stream (with a lifespan: its tail); tag and clean_values checked; and every manager of a Heikin-Ashi Hexital whose members name "
                "several timeframes (possibly the Hexital's own) against the same fold")
 ASSUMPTIONS = ["TZ=UTC for this check"]
-PARTIAL = 'proved for every schedule: without a timeframe, with a collapsing timeframe (with_timeframe) and with timeframe + gap filling, also for input candles that already carry readings (with_timeframe_fill_full); MEMBER MANAGERS OF A HEXITAL under any program of facade operations: haSpec of the raw stream, collapsed to the effective member timeframe and filled (member_schedule, member_schedule_tf, member_schedule_tf_fill, member_manager_is_bare). Round 8: the DEFAULT manager of a Hexital none of whose members lives on it is exactly the manager fed the same appends (default_manager_is_bare, default_schedule / _tf / _tf_fill); Heikin-Ashi + LIFESPAN: without a timeframe unconditionally - the manager holds haSpec of the stream minus the popped candles after every schedule (life_schedule); on a collapsing timeframe (with / without fill) under the exact condition that a re-opened bucket is never the first retained candle once something was popped (KeepsPredecessor; implied by C15 retention with look-back >= 1: life_schedule_tf, life_schedule_tf_retains, life_schedule_tf_fill) - without it the statement is false (life_schedule_tf_needs_predecessor: the re-opened bucket is converted as if it were the first candle ever; replayed on the library, which the property does not exclude - see DESIGN section 18); members and default manager of a lifespan Hexital (member_life_schedule, default_life_schedule). Open: input candles that already carry readings on lifespan managers'
+PARTIAL = 'proved for every schedule: without a timeframe, with a collapsing timeframe (with_timeframe) and with timeframe + gap filling, also for input candles that already carry readings (with_timeframe_fill_full); MEMBER MANAGERS OF A HEXITAL under any program of facade operations: haSpec of the raw stream, collapsed to the effective member timeframe and filled (member_schedule, member_schedule_tf, member_schedule_tf_fill, member_manager_is_bare). Round 8: the DEFAULT manager of a Hexital none of whose members lives on it is exactly the manager fed the same appends (default_manager_is_bare, default_schedule / _tf / _tf_fill); Heikin-Ashi + LIFESPAN: without a timeframe unconditionally - the manager holds haSpec of the stream minus the popped candles after every schedule (life_schedule); on a collapsing timeframe (with / without fill) under the exact condition that a re-opened bucket is never the first retained candle once something was popped (KeepsPredecessor; implied by C15 retention with look-back >= 1: life_schedule_tf, life_schedule_tf_retains, life_schedule_tf_fill) - without it the statement is false (life_schedule_tf_needs_predecessor: the re-opened bucket is converted as if it were the first candle ever; replayed on the library, which the property does not exclude - see DESIGN section 18); members and default manager of a lifespan Hexital (member_life_schedule, default_life_schedule). On a GAP-FILLED timeframe the condition reduces to the configuration alone: timeframe <= lifespan (keeps_predecessor_of_fill_le, life_schedule_tf_fill_of_le), and that bound is sharp (life_schedule_tf_fill_le_sharp: lifespan = timeframe - 1 s, replayed on the library); members / default manager with fill + Heikin-Ashi + lifespan (member_tf_fill_ha_life, default_tf_fill_ha_life and their _of_le forms). Open: input candles that already carry readings on lifespan managers'
 _case = om.make_case(ID, tf="maybe", ha=True)
 _case_fill = om.make_case(ID, tf=True, fill=True, ha=True)
 # with a lifespan the held candles must be the tail of the recurrence over the WHOLE stream (conversion happens before trimming)
